@@ -90,7 +90,7 @@ def malformed_enqueue(rng, idx):
 
 
 def gen_case(rng, idx, tier):
-    if idx % 200 == 3:
+    if idx % 201 == 3:
         return {"lane": "real", "seed": rng.randrange(1 << 30)}
     tasks = []
     healthy = []
